@@ -218,7 +218,7 @@ def run(ctx):
                     # exact: integers are compared as integers (i64, then u64), f64 only for what is left —
                     # through f64 alone distinct integers beyond 2^53 would be the same element
                     acc = set(x.rsplit("::", 1)[1] for x in o.detail.get("int_accessors", []))
-                    good = o.kind in ("INT-EQ", "MIXED-INT/FLOAT") and {"as_i64", "as_u64"} <= acc and o.detail.get("ops") == ["Eq"]
+                    good = o.kind in ("INT-EQ", "MIXED-INT/FLOAT") and {"as_i64", "as_u64"} <= acc and o.detail.get("ops") == ["Eq"] and not o.detail.get("ne_calls")
                     want = "exact numeric comparison (as_i64 and as_u64 pairs compared as integers, f64 only otherwise)"
                 elif a == b and a in ("Array", "Object"):
                     good = o.kind.startswith("REC")
@@ -230,5 +230,17 @@ def run(ctx):
                           sample={"pair": "%s,%s" % (a, b), "outcome": o.kind} if a == b else None)
             # Object×Object is key-wise (Map::get), Array×Array element-wise with equal lengths
             mu2 = Unit(roles, mf.key)
+            nmk = 0
+            for sx in mu2.calls_path(r"^std::option::Option::<T>::(unwrap_or|map_or|is_some_and)$"):
+                recv = sx.body.xtrace(sx.term["args"][0])
+                if not expr_mentions(recv, lambda y: y[0] == "call" and y[1] and y[1]["path"].startswith("serde_json::Map::<") and y[1]["path"].endswith("::get")):
+                    continue
+                nmk += 1
+                if callee_path(sx.term).endswith("is_some_and"):
+                    continue
+                dflt = strip_refs(sx.body.xtrace(sx.term["args"][1]))
+                ctx.check(dflt[0] == "const" and const_value(dflt[1]) is False, "K3.missing-key", "a key missing from the other object makes the objects different (%s, %s)" % (sx.where(), cfg),
+                          "for a key that the other object lacks the membership equality yields %s: objects with different key sets would be the same element" % show_expr(dflt), where=sx.where(), fn=sx.body.key, nontrivial=True)
+            ctx.check(nmk >= 1, "K3.missing-key-site", "the key-wise comparison handles a missing key explicitly (%s)" % cfg, "no Option fallback on Map::get in the membership equality", where=mf.where(), fn=mf.key)
             paths = [callee_path(s.term) for s in mu2.calls()]
             ctx.check(any(p.startswith("serde_json::Map::<") and p.endswith("::get") for p in paths) and sum(1 for p in paths if p.endswith("::len")) >= 4, "K3.structure", "objects compared key-wise via Map::get, lengths compared (%s)" % cfg, "membership equality calls: %s" % sorted(set(p.rsplit("::", 1)[1] for p in paths)), where=mf.where(), fn=mf.key)
